@@ -78,35 +78,7 @@ Next == /\ done = ""
 NextGen == Next /\ PrintT(ToJson(IF c.fam = "keys" THEN KeyCase(c) ELSE PivotCase(c, done')))
 
 \* ---- constructive level ---------------------------------------------------------------------------
-CGroupby(t, by, grp) ==
-    LET runs == RunsOf(SortedRows(t, by), by, 1, <<>>)  nk == NonKeys(t, by) IN
-    [cols |-> by \o <<grp>>,
-     rows |-> [n \in 1..Len(runs) |-> [cc \in Range(by) \cup {grp} |->
-                 IF cc = grp THEN <<"tbl", [cols |-> SelectSeq(t.cols, LAMBDA x : x \in nk),
-                                            rows |-> [m \in 1..Len(runs[n]) |-> [x \in nk |-> runs[n][m][x]]]]>>
-                 ELSE Last(runs[n])[cc]]]]
-CUngroup(g, by, grp) ==
-    FlattenSeq([n \in 1..Len(g.rows) |-> LET sub == g.rows[n][grp][2] IN
-                 [m \in 1..Len(sub.rows) |-> [cc \in Range(by) \cup Range(sub.cols) |-> IF cc \in Range(by) THEN g.rows[n][cc] ELSE sub.rows[m][cc]]]])
-\* one pivot row per x class (first member shown), one column per y class (first member's label)
-CPivot(t, xs, y, z, agg) ==
-    LET xr == SetToSortSeq(Reps(t, xs), <)
-        yr == SetToSortSeq(YReps(t, y), <)
-        labs == [n \in 1..Len(yr) |-> LabelEnc(t.rows[yr[n]][y])] IN
-    [cols |-> xs \o labs,
-     rows |-> [n \in 1..Len(xr) |-> [cc \in Range(xs) \cup Range(labs) |->
-                 IF cc \in Range(xs) THEN t.rows[xr[n]][cc]
-                 ELSE LET k == CHOOSE k \in Range(yr) : LabelEnc(t.rows[k][y]) = cc
-                          zs == CellZs(t, xs, y, z, xr[n], k) IN
-                      IF zs = <<>> THEN None ELSE Agg(agg, zs)]]]
-\* unpivot: every column selected by IsValueCol becomes rows (x cells, its label as y, the cell as z); then None cells go
-CUnpivotBy(IsValueCol(_), t, pv, xs, y, z) ==
-    LET ycols == SelectSeq(pv.cols, IsValueCol)
-        Dec(cc) == RenderVal(t.rows[CHOOSE j \in 1..NRows(t) : LabelEnc(t.rows[j][y]) = cc][y])
-        rows == FlattenSeq([n \in 1..Len(pv.rows) |-> [m \in 1..Len(ycols) |-> [cc \in Range(xs) \cup {y, z} |->
-                   IF cc = y THEN Dec(ycols[m]) ELSE IF cc = z THEN pv.rows[n][ycols[m]] ELSE pv.rows[n][cc]]]]) IN
-    [cols |-> xs \o <<y, z>>, rows |-> SelectSeq(rows, LAMBDA r : ~IsNone(r[z]))]
-CUnpivot(t, pv, xs, y, z) == CUnpivotBy(LAMBDA cc : cc \notin Range(xs), t, pv, xs, y, z)
+\* (CGroupby, CUngroup, CPivot, CUnpivotBy, CUnpivot: constructive level of Regroup.tla)
 \* the mechanism "col not in x" with x as it was passed: membership for a list, a SUBSTRING test for a single name
 IsSubstr(s, x) == \E i \in 1..(Len(x) + 1) : i + Len(s) - 1 <= Len(x) /\ SubSeq(x, i, i + Len(s) - 1) = s
 CUnpivotSub(t, pv, xs, form, y, z) ==
